@@ -389,14 +389,17 @@ h("kd10c_symbuf_clone_to", "zlib-rs/src/deflate/sym_buf/verif_kani.rs", "deflate
 h("ki8c_window_clone_to", "zlib-rs/src/inflate/window/verif_kani.rs", "inflate::window::verif_kani", ["C14"], kernel="KI8c", expect_s=20, timeout=600,
   functions=["inflate::Window::clone_to", "Window::extend"], bounds="W = 8, any history from one extend of <= 12 bytes")
 
-for _r, _tier in [(1, "quick"), (3, "thorough"), (6, "quick"), (11, "quick"), (12, "thorough")]:
-    h("ki5c_codelens_r%d" % _r, BLK, BP, ["C03", "C02", "C04"], kernel="KI5c", tier=_tier, expect_s=200, timeout=1800, weight=2, mem_gb=16,
-      functions=["State::dispatch (mode CodeLens, Len_, Len)"],
-      bounds="concrete code-length code {0:2,1:2,2:3,16:3,17:3,18:3 bits}, HLIT 257 / HDIST 3, %d lengths outstanding (concrete), 12 symbolic input bits, "
-             "symbolic previous length and end-of-block length; oracle = reference RLE decoder (RFC 1951 3.2.7) in the harness" % _r,
-      unwindset=DISPATCH_US(2, inner=min(8, _r + 2)) + [("spec_fill", None, _r + 2)],
+for _nm, _sym, _r in [("16_exact", 16, 4), ("16_over", 16, 3), ("17_exact", 17, 6), ("17_over", 17, 5), ("17_short", 17, 7), ("18_exact", 18, 11),
+                      ("18_exact_long", 18, 12), ("18_over", 18, 11), ("16_suspend", 16, 5), ("17_suspend", 17, 5), ("18_suspend", 18, 20)]:
+    h("ki5c_codelens_" + _nm, BLK, BP, ["C03", "C04", "C02"], kernel="KI5c", expect_s=60, timeout=1200, weight=2, mem_gb=16,
+      functions=["State::dispatch (mode CodeLens, Len_)"],
+      bounds="concrete code-length code {0:2,1:2,2:3,16:3,17:3,18:3 bits}, HLIT 257 / HDIST 3; one run-length item with code %d: repeat count concrete "
+             "(run ends exactly at / one past / one short of HLIT+HDIST, or the extra bits are missing = suspension), %d lengths outstanding, "
+             "symbolic previous length and end-of-block length" % (_sym, _r),
+      unwindset=DISPATCH_US(2, inner=4) + [("spec_fill", None, 14)],
       assumptions=["inflate_table -> stub returning Success (table contents are KI4's subject; the symbol decoder is stubbed to suspend)",
-                   "State::len_and_friends -> 'suspends at once'", "checked stubs for Writer::copy_match / extend_from_window"])
+                   "State::len_and_friends -> 'suspends at once'", "checked stubs for Writer::copy_match / extend_from_window",
+                   "repeat count concrete per instance (symbolic counts ran out of memory at 20 GB)"])
 
 # ---------------------------------------------------------------- inflate: KI6 fast loop
 h("ki6_fast_loop_room", I + "/ki6_fast.rs", "inflate::verif_kani::ki6_fast", ["C02"], kernel="KI6", expect_s=300, timeout=2400, weight=3, mem_gb=20,
@@ -415,17 +418,44 @@ h("kd10_set_dictionary_protocol", E, EP, ["C13", "C05", "C16"], kernel="KD10", e
                "fill_window -> contract stub (consumes the input; window/hash contents are outside this harness)", "<[u16]>::fill -> write_bytes model"])
 
 
-for _sp in (1, 5, 13, 40):
-    h("kd7_gzip_header_space%d" % _sp, D + "/kd7_machine.rs", "deflate::verif_kani::kd7_machine", ["C20", "C05", "C06"], kernel="KD7", expect_s=300, timeout=2400,
-      weight=2, mem_gb=16,
-      functions=["deflate::deflate (gzip header states GZip, Extra, Name, Comment, Hcrc, Busy, trailer)", "flush_bytes", "flush_pending", "gz_header::flags"],
-      bounds="gzip wrapper, all levels, header with symbolic text/time/os/hcrc, extra of 0..=6 symbolic bytes or absent, name <= 7 chars or absent, comment <= 2 chars or absent; "
-             "pending buffer 16 bytes (smaller than the header); first call with %d byte(s) of output room, then 6 per call; Finish until StreamEnd" % _sp,
-      assumptions=RUNSTUB + ["crc32 -> byte-wise fold model for the header CRC (expected value computed with the same function: replay-safe)"])
+h("kd7_gzip_header_none_s1", D + "/kd7_machine.rs", "deflate::verif_kani::kd7_machine", ["C20", "C05", "C07"], kernel="KD7", tier="thorough",
+  expect_s=300, timeout=2400, weight=3, mem_gb=24, unwindset=[("verif_kani::model_fold", None, 40)],
+  functions=["deflate::deflate (gzip header states, trailer)", "flush_pending", "gz_header::flags", "deflate::bound (gzip wrapper length)"],
+  bounds="gzip wrapper, all levels, header with symbolic text/time/os and any i32 hcrc, no optional field; pending 16 bytes, 1 byte of room first then 44; "
+         "deflateBound's wrapper length compared with the bytes written (the variants with extra/name fields ran out of memory at 24 GB and are not registered)",
+  assumptions=RUNSTUB + ["crc32 -> byte-wise fold model (expected value computed with the same function: replay-safe)", "CStr::from_ptr -> explicit-loop model"])
+h("kd7_flush_bytes_unit", D + "/kd7_machine.rs", "deflate::verif_kani::kd7_machine", ["C20", "C06", "C05"], kernel="KD7", expect_s=200, timeout=1800, weight=2, mem_gb=16,
+  functions=["deflate::flush_bytes", "flush_pending", "Pending::{extend,advance,remaining}"],
+  bounds="pending buffer 8 bytes with any fill level and contents, field of 0..=12 symbolic bytes, output room 0..=22 in a canaried array, any starting gzindex <= 100",
+  assumptions=["crc32 -> nondeterministic (header CRC value is not the subject here)"])
+for _w in ("extra", "name", "comment"):
+    h("kd7_gzip_resume_" + _w, D + "/kd7_machine.rs", "deflate::verif_kani::kd7_machine", ["C20", "C06"], kernel="KD7", expect_s=60, timeout=1200, weight=2, mem_gb=16,
+      functions=["deflate::deflate (gzip header state %s resumed, following states, trailer)" % _w.capitalize(), "flush_bytes"],
+      bounds="gzip %s field of 5 symbolic bytes, 0..=4 of them already emitted by earlier calls (gzindex), ample output" % _w,
+      assumptions=RUNSTUB + ["crc32 -> nondeterministic", "CStr::from_ptr -> explicit-loop model",
+                             "pre-state: status = the field's state, gzindex = bytes of the field already emitted (what flush_bytes leaves behind when it stops early)"])
 
 h("ki8_sync_then_inflate", I + "/ki8_entry.rs", "inflate::verif_kani::ki8_entry", ["C15", "C16"], kernel="KI8", expect_s=60, timeout=900,
   functions=["inflate::sync", "inflate::inflate", "inflate::reset", "State::dispatch (TypeDo, Stored, CopyBlock, Check, Length, Done)"],
   bounds="any running totals < 2^40, concrete marker + final stored block with 2 symbolic data bytes", assumptions=STEP_ASSUME)
+
+T4 = "zlib-rs/src/inflate/inftrees/verif_kani.rs"
+T4P = "inflate::inftrees::verif_kani"
+h("ki4_table_6sym_4bits_root2", T4, T4P, ["C03", "C02"], kernel="KI4", tier="thorough", expect_s=600, timeout=3600, weight=3, mem_gb=24,
+  functions=["inftrees::inflate_table (CodeType::Dists)"],
+  bounds="every length vector of 6 symbols with lengths 0..=4, root 2, table/work passed as 32/8-entry slices; symbolic 4-bit string decoded through "
+         "root + sub-table == canonical code (RFC 1951 3.2.2), val/op = RFC base/extra")
+h("ki4_table_5sym_3bits_root2", T4, T4P, ["C03", "C02"], kernel="KI4", expect_s=200, timeout=1800, weight=2, mem_gb=16,
+  functions=["inftrees::inflate_table (CodeType::Dists)"], bounds="every length vector of 5 symbols with lengths 0..=3, root 2")
+h("ki4_table_concrete_clen_code", T4, T4P, ["C03"], kernel="KI4", expect_s=30, timeout=600,
+  functions=["inftrees::inflate_table (CodeType::Codes)"], bounds="the concrete code-length code of the CodeLens harnesses (concrete run; ties the hand-written table to the real builder)")
+
+h("ka2_deflate_end_releases_once", E, EP, ["C18", "C06"], kernel="KA2", expect_s=15, timeout=600,
+  functions=["deflate::end", "Allocator::allocate_slice_raw", "Allocator::deallocate"],
+  bounds="typed state whose block came from a (misaligning) user allocator through the real shim, every Status value")
+h("ka2_inflate_end_releases_once", I + "/ki8_entry.rs", "inflate::verif_kani::ki8_entry", ["C18"], kernel="KA2", expect_s=15, timeout=600,
+  functions=["inflate::end", "Allocator::allocate_slice_raw", "Allocator::deallocate"],
+  bounds="typed state whose block came from a (misaligning) user allocator through the real shim, 6 representative modes, any wrap")
 
 # =================================================================================================================
 # Tier assignment.  `props` of a harness = every property it is evidence for (all of them run in the thorough tier).
@@ -464,10 +494,12 @@ QUICK = {
             "ki8_sync_then_inflate", "kd7_zlib_wrapper"],
     "C16": ["ki8_small_entry_points", "ki8_sync", "ki8_reset_equals_fresh", "ki5a_set_dictionary", "kd10_prime", "kd10_params_tune",
             "kd10_set_header", "kd10_set_dictionary_protocol", "ki7_inflate_terminal", "ki5e_terminal_modes"],
-    "C18": ["ka1_alloc_shim", "ka1_alloc_overflow_and_null", "ka2_deflate_copy_alloc_failure"],
+    "C18": ["ka1_alloc_shim", "ka1_alloc_overflow_and_null", "ka2_deflate_copy_alloc_failure", "ka2_deflate_end_releases_once",
+            "ka2_inflate_end_releases_once"],
     "C19": ["kb1_back_lit1_d0", "kb1_back_lit1_d4", "kb1_back_lit1_d16", "kb1_back_lit1_d29", "kb1_back_lit1_d30",
             "kb1_back_lit9_d5", "ki2_copy_match_back"],
-    "C20": ["ki5b_fixed_part", "ki5b_extra", "ki5b_name", "ki5b_comment", "ki5b_hcrc", "kd10_set_header"],
+    "C20": ["ki5b_fixed_part", "ki5b_extra", "ki5b_name", "ki5b_comment", "ki5b_hcrc", "kd10_set_header", "kd7_flush_bytes_unit",
+            "kd7_gzip_resume_extra", "kd7_gzip_resume_name", "kd7_gzip_resume_comment"],
 }
 for _pid, _hs in QUICK.items():
     for _n in _hs:
